@@ -14,6 +14,14 @@ CLAIMS = {
             "Proves antisymmetry and (where rational) the round trip symbolically for every transform class and all 8 on/off combinations of the composite; a consistent error on both members of a pair is invisible."),
     "C05": ("5 C05", "value numbering of every kernel target against (1-beta)Q + beta(L+P) + J; NaN-map idiom match; binding of beta in mutate()",
             "Proves the tempered-target identity, the NaN -> -inf map and the beta binding for every sampler class reachable by MRO, including kernels whose packages are absent."),
+    "C06": ("5 C06", "path-sensitive constant propagation (division by a definite zero), CFG exit/once-per-iteration analysis of the SMC loop, ranking argument over the option prologue, value numbering of the clamp/floor/snap",
+            "Decides the structural termination conditions: loop exits only at beta==1 or the cap, counter and temperature updated once per iteration from determine_beta, clamp/floor identities, tolerance-robust snap of the fixed schedule, no definite division by zero on any feasible option path, progress on every option path (one known finding)."),
+    "C07": ("5 C07", "template match on the bisection loop's transfer function in value-numbered normal form",
+            "Proves the bracket initialisation, guard, midpoint, branch polarity, result and the efficiency/target identities of the temperature search; monotonicity of ESS(beta) is an assumption of the method."),
+    "C08": ("5 C08", "value numbering (ratio / variance identities), reaching definitions at the loop's ratio call on fresh and resumed paths, per-iteration path counting of history appends on the CFG, who-may-write scan, final-sum identity with call-time snapshot",
+            "Proves that each step's ratio uses the pre-resampling population and the temperatures actually used, is appended exactly once per iteration and nowhere else, and that the returned evidence and error are the sum / root-sum of the recorded series."),
+    "C09": ("5 C09", "value numbering of the generator call and the constructor keywords (field x index agreement)",
+            "Proves the probability vector is the normalised incremental weight, the draw uses the caller's generator, and every per-sample field is indexed by the one drawn index."),
 }
 
 NA = {
@@ -22,7 +30,7 @@ NA = {
 
 PENDING = {
     p: "check not built yet in this session (engine under construction); see DESIGN.md section 5"
-    for p in ["C06", "C07", "C08", "C09", "C10", "C11", "C12", "C13", "C14", "C15", "C16", "C17", "C18", "C19", "C20"]
+    for p in ["C10", "C11", "C12", "C13", "C14", "C15", "C16", "C17", "C18", "C19", "C20"]
 }
 
 
